@@ -32,6 +32,14 @@ const STACK_SIZE: usize = 256 << 20;
 struct Swap {
     at_step: usize,
     src_path: String,
+    /// WASM only: how the CLI builds the payload.  "inprocess" = `prepare_hot_swap_wasm_payload(bytes, Some(skeleton),
+    /// Some(ext_fns))` (recompile_file_inprocess); "subprocess" = `prepare_hot_swap_wasm_payload(bytes, None, None)`, which is
+    /// what the native CLI does for the WASM backend (recompile_file -> try_compile_wasm_in_subprocess returns bytes only).
+    #[serde(default = "default_variant")]
+    variant: String,
+}
+fn default_variant() -> String {
+    "inprocess".into()
 }
 
 #[derive(Deserialize, Clone)]
@@ -66,7 +74,7 @@ struct SwapResult {
     src_path: String,
     ok: bool,
     errors: Vec<String>,
-    /// VM only: the state storage right after the swap, before the next sample runs
+    /// the state storage right after the swap, before the next sample runs
     #[serde(skip_serializing_if = "Option::is_none")]
     state_after_swap: Option<Vec<u64>>,
 }
@@ -271,10 +279,15 @@ fn compile_wasm(path: &str, scheduler: bool) -> Result<WasmOutput, String> {
 /// Replica of mimium-cli `FileRunner::prepare_hot_swap_wasm_payload`
 /// (+ `try_prewarm_wasm_global_state` + `build_required_state_patch_plan`).
 fn prepare_wasm_payload(
-    out: WasmOutput,
+    mut out: WasmOutput,
     previous_skeleton: Option<StateTreeSkeleton<StateType>>,
     plugin_fns: Option<WasmPluginFnMap>,
+    subprocess: bool,
 ) -> Result<ProgramPayload, String> {
+    if subprocess {
+        // the subprocess hands back the module bytes only: no skeleton reaches prepare_hot_swap_wasm_payload
+        out.dsp_state_skeleton = None;
+    }
     let mut engine = WasmEngine::new(&out.ext_fns, plugin_fns)
         .map_err(|e| format!("failed to create prewarm wasm engine: {e}"))?;
     engine
@@ -416,16 +429,21 @@ fn run_wasm(spec: &Spec, trace: &Shared) {
             };
             let swapped = guarded(|| {
                 let out = compile_wasm(&swap.src_path, spec.scheduler)?;
-                let new_skeleton = out.dsp_state_skeleton.clone();
+                let subprocess = swap.variant == "subprocess";
+                let new_skeleton = if subprocess { None } else { out.dsp_state_skeleton.clone() };
                 let payload = prepare_wasm_payload(
                     out,
                     current_skeleton.clone(),
                     plugin_fns_for_hotswap.clone(),
+                    subprocess,
                 )?;
                 // As in the CLI, the "old program" record is updated once the payload is prepared.
                 current_skeleton = new_skeleton;
                 Ok::<_, String>(rt.try_hot_swap(payload))
             });
+            if let Ok(Ok(_)) = &swapped {
+                res.state_after_swap = Some(wasm_snapshot(&mut rt).0);
+            }
             match swapped {
                 Ok(Ok(ok)) => res.ok = ok,
                 Ok(Err(e)) => res.errors.push(e),
